@@ -120,3 +120,16 @@ func c07OverlapSpace() *sup.Space {
 		}
 	}}
 }
+
+// itemTriples returns all unordered triples of items (thorough tiers).
+func itemTriples(items []item) [][]item {
+	var out [][]item
+	for i := range items {
+		for j := i + 1; j < len(items); j++ {
+			for k := j + 1; k < len(items); k++ {
+				out = append(out, []item{items[i], items[j], items[k]})
+			}
+		}
+	}
+	return out
+}
